@@ -27,6 +27,69 @@ def names_in(e):
     return out
 
 
+class _Unknown(Exception):
+    pass
+
+
+def _ev(e, env, length_attr):
+    """Evaluate a side-effect-free integer/boolean guard expression of the AST under env = {target: int, '<len>': int}."""
+    if isinstance(e, ast.Constant) and isinstance(e.value, (int, bool)):
+        return e.value
+    if isinstance(e, ast.Name):
+        if e.id in env:
+            return env[e.id]
+        raise _Unknown
+    if isinstance(e, ast.Attribute) and e.attr == length_attr and isinstance(e.value, ast.Name) and e.value.id == 'self':
+        return env['<len>']
+    if isinstance(e, ast.UnaryOp):
+        v = _ev(e.operand, env, length_attr)
+        if isinstance(e.op, ast.Not):
+            return not v
+        if isinstance(e.op, ast.USub):
+            return -v
+        raise _Unknown
+    if isinstance(e, ast.BinOp) and isinstance(e.op, (ast.Add, ast.Sub)):
+        a, b = _ev(e.left, env, length_attr), _ev(e.right, env, length_attr)
+        return a + b if isinstance(e.op, ast.Add) else a - b
+    if isinstance(e, ast.BoolOp):
+        vals = [_ev(v, env, length_attr) for v in e.values]
+        return all(vals) if isinstance(e.op, ast.And) else any(vals)
+    if isinstance(e, ast.Compare):
+        left = _ev(e.left, env, length_attr)
+        for op, r in zip(e.ops, e.comparators):
+            right = _ev(r, env, length_attr)
+            ok = {ast.Lt: left < right, ast.LtE: left <= right, ast.Gt: left > right, ast.GtE: left >= right, ast.Eq: left == right, ast.NotEq: left != right}.get(type(op))
+            if ok is None:
+                raise _Unknown
+            if not ok:
+                return False
+            left = right
+        return True
+    raise _Unknown
+
+
+def _guard_meaning(test, outcome, var, length_attr):
+    """(lower, upper): does taking the edge `test == outcome` imply var >= 0 / var <= length, for every small (var, length)?  None if the test is not a
+    pure predicate over the target and the length."""
+    if var not in names_in(test):
+        return None
+    pairs = []
+    try:
+        for L in (0, 1, 2, 5):
+            for t in range(-3, 9):
+                if bool(_ev(test, {var: t, '<len>': L}, length_attr)) == bool(outcome):
+                    pairs.append((t, L))
+    except _Unknown:
+        return None
+    if not pairs:
+        return (True, True, frozenset())  # infeasible edge
+    return (all(t >= 0 for t, L in pairs), all(t <= L for t, L in pairs), frozenset(pairs))
+
+
+_FULL = frozenset((t, L) for L in (0, 1, 2, 5) for t in range(-3, 9))
+_INRANGE = frozenset((t, L) for t, L in _FULL if 0 <= t <= L)
+
+
 class SeekMachine(Machine):
     """PackedObjectReader.seek for one constant `whence`: the variable used to compute the new position of the
     underlying handle is bounds-checked against 0 and the object length after its last assignment, it was normalised
@@ -42,16 +105,23 @@ class SeekMachine(Machine):
         self.top = g.top
         self.moves = 0
         self.returns = 0
+        self.feas = {}
+        self.move_feasible = set()
 
     def initial(self, g):
-        return [(False, False, 'none', False)]
+        return [(False, False, 'none', False, _FULL)]
 
     def edge_state(self, edge, st, node, g):
         c = edge.cond
         if c is None or c[1] is not self.top:
             return st
         e, pol = strip_not(c[0], c[2])
-        lo, up, adj, moved = st
+        lo, up, adj, moved, feas = st
+        # finite-domain reading of the guard: which (target, length) pairs can take this edge?  Any spelling of the bound (`t > L`, `t >= L + 1`,
+        # `not 0 <= t <= L`, ...) gives the same answer.
+        sem = _guard_meaning(c[0], c[2], self.var, self.length_attr)
+        if sem is not None:
+            return (lo or sem[0], up or sem[1], adj, moved) + (st[4] & sem[2],)
         if isinstance(e, ast.Compare) and len(e.ops) == 1:
             l, r, op = e.left, e.comparators[0], e.ops[0]
             ln, rn = names_in(l), names_in(r)
@@ -74,17 +144,16 @@ class SeekMachine(Machine):
             if is_len(l) and is_var(r):
                 if (isinstance(op, ast.Lt) and not pol) or (isinstance(op, ast.GtE) and pol):
                     up = True
-            if is_zero(l) and len(e.ops) == 1 and False:
-                pass
-        return (lo, up, adj, moved)
+        return (lo, up, adj, moved, feas)
 
     def transfer(self, node, st, g):
-        lo, up, adj, moved = st
+        lo, up, adj, moved, feas = st
         viol = []
         if node.frame is self.top and node.kind == 'stmt' and isinstance(node.ast, (ast.Assign, ast.AugAssign)):
             tgt = node.ast.targets[0] if isinstance(node.ast, ast.Assign) and len(node.ast.targets) == 1 else getattr(node.ast, 'target', None)
             if isinstance(tgt, ast.Name) and tgt.id == self.var:
                 lo = up = False
+                feas = _FULL
                 v = node.ast.value
                 nm = names_in(v)
                 if isinstance(v, ast.Call) and norm(v.func) in ('min', 'max'):
@@ -104,6 +173,7 @@ class SeekMachine(Machine):
                 and '_fhandle' in names_in(node.ast.func.value)):
             self.moves += 1
             moved = True
+            self.move_feasible |= feas
             if not (lo and up):
                 missing = [w for w, f in (('>= 0', lo), ('<= length', up)) if not f]
                 viol.append(Violation(self.rule1, node, st, f'whence={self.whence}: the underlying pack handle is moved although the target was not checked ({" and ".join(missing)}) '
@@ -126,7 +196,7 @@ class SeekMachine(Machine):
                     viol.append(Violation(self.rule2, node, st, f'whence=2: the value returned by seek (`{norm(v)}`) does not depend on the object length: it cannot be the absolute position'))
             else:
                 viol.append(Violation(self.rule2, node, st, 'seek returns None instead of the new absolute position'))
-        return [(lo, up, adj, moved)] + viol
+        return [(lo, up, adj, moved, feas)] + viol
 
 
 def rewind_reset(ctx, chk, R6):
@@ -372,8 +442,12 @@ def run(ctx, host=None):
         chk.require(m.returns >= 1, f'PackedObjectReader.seek(whence={w}): no return after the move found')
         for v in viols:
             chk.bad(v.rule, seek.qualname, f'whence={w}: ' + v.node.text(100), v.msg, where=v.node.where, witness=v.witness)
-        if not [v for v in viols if v.rule == 'C07.R1']:
-            chk.ok(R1, seek.qualname, f'whence={w}', detail='lower and upper bound checked after the last assignment of the target, before the handle moves')
+        lost = sorted(_INRANGE - m.move_feasible)
+        if lost and m.moves:
+            chk.bad(R1, seek.qualname, f'whence={w}: guards before the move', f'whence={w}: an in-range target is rejected: with (target, length) = {lost[0]} no path reaches the move of the handle '
+                    '(io.BytesIO accepts every position from 0 up to and including the length, e.g. seek(0, 2))', where=f'{seek.module.relpath}:{seek.lineno}')
+        elif not [v for v in viols if v.rule == 'C07.R1']:
+            chk.ok(R1, seek.qualname, f'whence={w}', detail='lower and upper bound checked after the last assignment of the target, before the handle moves; every in-range target reaches the move')
         if not [v for v in viols if v.rule == 'C07.R2']:
             chk.ok(R2, seek.qualname, f'whence={w}', detail='returned value is the normalised absolute target')
 
@@ -456,7 +530,7 @@ def run(ctx, host=None):
                 'must return an empty bytes object as for any file, and a positive size must never read everything', where=f'{rd.module.relpath}:{(allb[0].lineno if allb else rd.lineno)}')
 
     # ---------------------------------------------------------------- R7: one coordinate mapping (object position <-> pack-file position)
-    R7 = chk.rule('C07.R7', 'PackedObjectReader converts between object and pack-file coordinates only as handle.tell() - offset and offset + target', 4)
+    R7 = chk.rule('C07.R7', 'PackedObjectReader converts between object and pack-file coordinates only as handle.tell() - offset and offset + target', 3)
     off_attr = None
     for n in walk_local(init.node):
         if isinstance(n, ast.Assign) and isinstance(n.targets[0], ast.Attribute) and isinstance(n.value, ast.Name) and n.value.id == 'offset':
@@ -487,6 +561,22 @@ def run(ctx, host=None):
                     else:
                         chk.bad(R7, f.qualname, norm(n) + ' with ' + (norm(a) if a is not None else '?'), 'the pack handle is moved to something other than `offset + <object position>` '
                                 '(absolute seek): the stream would be positioned on other bytes than the ones requested', where=f'{f.module.relpath}:{n.lineno}')
+
+    # tell() answers in object coordinates: either the conversion itself, or an attribute that is only ever assigned the conversion
+    tl = por.methods.get('tell')
+    chk.require(tl is not None, 'PackedObjectReader.tell not found')
+    for r in [n for n in walk_local(tl.node) if isinstance(n, ast.Return)]:
+        v = r.value
+        okt = isinstance(v, ast.BinOp) and isinstance(v.op, ast.Sub) and is_off(v.right) and 'tell' in names_in(v.left)
+        if not okt and isinstance(v, ast.Attribute) and norm(v.value) == 'self':
+            asg = [(f2, n) for f2 in por.methods.values() for n in walk_local(f2.node) if isinstance(n, (ast.Assign, ast.AugAssign))
+                   for t in (n.targets if isinstance(n, ast.Assign) else [n.target]) if isinstance(t, ast.Attribute) and t.attr == v.attr and norm(t.value) == 'self']
+            okt = bool(asg) and all((f2.name == '__init__') or (isinstance(n, ast.Assign) and isinstance(n.value, ast.BinOp) and isinstance(n.value.op, ast.Sub) and is_off(n.value.right)
+                                                                and 'tell' in names_in(n.value.left)) for f2, n in asg)
+        if okt:
+            chk.ok(R7, tl.qualname, norm(r), detail='object position (converted from the pack position)', nontrivial=False)
+        else:
+            chk.bad(R7, tl.qualname, norm(r), 'tell() returns something that is not the pack position minus the object offset', where=f'{tl.module.relpath}:{r.lineno}')
 
     # ---------------------------------------------------------------- R4
     for q in (POR + '.seek', ZL + '.seek'):
